@@ -226,9 +226,42 @@ class VmRun(object):
                 return Sc('i64', 1)
             return HostFn(name, getsr)
         if '$' in name:
-            # arity-specialised array builtins are closures built by plugin::try_make_specialized_extcls: not modelled
+            # arity-specialised array builtins (`split_head$arity2`, ...) are closures built by
+            # plugin::builtin_functins::try_make_specialized_extcls: run the factory closure `make_<base>` from MIR with the arity
+            cl = self.specialised_ext_closure(name)
+            if cl is not None:
+                return cl
             raise Unsupported('external function %s (arity-specialised closure)' % name)
         return FnV('plugin::builtin_functins::%s::machine_function' % name)
+
+    def specialised_ext_closure(self, name):
+        import re as _re
+        it = self.it
+        m = _re.fullmatch(r'(\w+)\$arity(\d+)', name)
+        if not m:
+            return None
+        base, arity = m.group(1), int(m.group(2))
+        crate = it.crate
+        for span, (mir, fname) in crate.closure_by_span.items():
+            if not _re.search(r'try_make_specialized_extcls::\{closure#\d+\}$', fname) or 'builtin_functins' not in fname:
+                continue
+            # span = crates/.../builtin_functins.rs:713:24: 713:42 ; the source line reads `let make_<base> = |elem_size: usize| {`
+            sm = _re.match(r'\{closure@(.*?):(\d+):\d+', span)
+            if not sm:
+                continue
+            lines = crate.src_lines(sm.group(1))
+            line = lines[int(sm.group(2)) - 1] if int(sm.group(2)) - 1 < len(lines) else ''
+            if not _re.search(r'\blet\s+make_%s\b' % _re.escape(base), line):
+                continue
+            # the factory closure borrows `name` and `ty` of the enclosing function
+            factory = Agg('closure:' + span, None, [Ref([Agg('Symbol', None, [Opaque('Symbol:' + name)])], 0), Ref([Agg('TypeNodeId', None, [Opaque('TypeNodeId')])], 0)])
+            info = it.call_value(factory, [Sc('usize', arity)], None)
+            for f in info.fields:
+                if isinstance(f, RcV):
+                    inner = f.cell[0]
+                    return inner.cell[0] if isinstance(inner, RefCellV) else inner
+            return None
+        return None
 
     def build_machine(self, prog):
         it = self.it
